@@ -5,6 +5,8 @@ import NurbsVerif.Lemmas.RefineObj
 import NurbsVerif.Lemmas.RefineDyadic
 import NurbsVerif.Lemmas.VolRefineObj
 import NurbsVerif.Lemmas.InsertObjExamples
+import NurbsVerif.Lemmas.A54Helper
+import NurbsVerif.Lemmas.A54Kv2
 
 /-!
 # C05  Knot refinement never changes the shape
@@ -432,5 +434,142 @@ example : (refineKnotvector exVolQ [1, 1, 1] (1/10000000)).2 = true ∧
     (refineKnotvector exVolQ [1, 1, 1] (1/10000000)).1.kvs
       = [[0,0,1/2,1,1], [0,0,1/2,1,1], [0,0,0,1/4,1/4,1/2,1/2,3/4,3/4,1,1,1]] ∧
     (refineKnotvector exVolQ [1, 1, 1] (1/10000000)).1.sizes = [3, 3, 9] := by decide +kernel
+
+/-! ## (F) A5.4 AS CODED (`refineA54`: the literal transcription of the loops of `helpers.knot_refinement`)
+
+`refineA54 p U P X tol` transcribes everything the code does after the list `X` has been computed: the
+spans `a`, `b`, the initial copies into `new_ctrlpts` / `new_kv`, the `while j >= 0` loop with the
+shifting `while`, the `for l` blends and the `abs(alpha) < tol` branch.  `knotRefinementA54` is the whole
+call (`X` as the code computes it, then `refineA54`).  Both are run against the real function by the
+correspondence check (`refa54`, `refa54h`).  Hypotheses on `X` (all decidable on concrete input):
+non-empty, sorted, every knot in `[U_p, U_n)`, old knots and `X` tolerance separated, no knot of `X`
+exceeds multiplicity `p` once all its copies are in. -/
+
+/-- **Every pass of the outer loop of A5.4 is ONE knot insertion**: the work arrays, read across the gap
+    that moves to the left, always hold the curve obtained by inserting the knots processed so far, so
+    A5.4 as coded returns (knot vector and control points) the fold of single library insertions
+    (`insertOne`: span by `find_span_linear`, multiplicity by `find_multiplicity`, A5.1 with `num = 1`)
+    over `X` in DESCENDING order. -/
+theorem refineA54_is_descending_insert_fold (p d : ℕ) (U : List K) (P : List (List K)) (X : List K) (tol : K)
+    (hwf : CurveWF p d U P) (hX : X ≠ []) (hsort : X.Pairwise (· ≤ ·))
+    (hdom : ∀ x ∈ X, fnOf U p ≤ x ∧ x < fnOf U P.length) (h0 : 0 ≤ tol) (hsep : SepBy tol (U ++ X))
+    (hcnt : ∀ x ∈ X, U.count x + X.count x ≤ p) :
+    refineA54 p U P X tol = X.reverse.foldl (insertOne p tol) (U, P) :=
+  refineA54_eq_desc_fold p d U P X tol hwf hX hsort hdom h0 hsep hcnt
+
+/-- **The knot vector A5.4 returns (`new_kv`) is the sorted merge of `U` and `X`**: it is sorted, as a
+    multiset the old knots plus `X`, and equal to the knot vector of the specification-level model (the
+    fold of insertions in ascending order) – for every sorted knot vector of the right length and every
+    non-empty sorted list `X` inside `[U_p, U_n)`; no hypothesis on multiplicities, tolerance or control
+    points. -/
+theorem refineA54_knot_vector (p : ℕ) (U : List K) (P : List (List K)) (X : List K) (tol : K)
+    (hm : Monotone (fnOf U)) (hlen : U.length = P.length + p + 1) (hpn : p + 1 ≤ P.length) (hX : X ≠ [])
+    (hsort : X.Pairwise (· ≤ ·)) (hdom : ∀ x ∈ X, fnOf U p ≤ x ∧ x < fnOf U P.length) :
+    (refineA54 p U P X tol).1 = (X.foldl (insertOne p tol) (U, P)).1 ∧
+    (refineA54 p U P X tol).1.Pairwise (· ≤ ·) ∧ (refineA54 p U P X tol).1.Perm (X ++ U) :=
+  refineA54_kv_weak p U P X tol hm hlen hpn hX hsort hdom
+
+/-- **A5.4 as coded never changes the shape**: what the literal transcription returns is a well-formed
+    curve over the same domain that evaluates – spans by the library's search – to the same point at
+    every parameter of the domain (both ends included), in every coordinate. -/
+theorem refineA54_preserves_shape (p d : ℕ) (U : List K) (P : List (List K)) (X : List K) (tol : K)
+    (hwf : CurveWF p d U P) (hX : X ≠ []) (hsort : X.Pairwise (· ≤ ·))
+    (hdom : ∀ x ∈ X, fnOf U p ≤ x ∧ x < fnOf U P.length) (h0 : 0 ≤ tol) (hsep : SepBy tol (U ++ X))
+    (hcnt : ∀ x ∈ X, U.count x + X.count x ≤ p) :
+    CurveWF p d (refineA54 p U P X tol).1 (refineA54 p U P X tol).2 ∧
+    fnOf (refineA54 p U P X tol).1 p = fnOf U p ∧
+    fnOf (refineA54 p U P X tol).1 (refineA54 p U P X tol).2.length = fnOf U P.length ∧
+    ∀ (u : K), fnOf U p ≤ u → u ≤ fnOf U P.length → ∀ j,
+      (curvePoint p (fnOf (refineA54 p U P X tol).1) (refineA54 p U P X tol).2 u).getD j 0
+        = (curvePoint p (fnOf U) P u).getD j 0 :=
+  refineA54_preserves_curve p d U P X tol hwf hX hsort hdom h0 hsep hcnt
+
+/-- **The order of insertion does not matter.**  Two admissible folds of library insertions over
+    permutations of the same list return the same knot vector and the same control points: every new
+    control point is the polar value of the ORIGINAL curve at `p` consecutive new knots
+    (`fold_ctrlpt_is_polar`).  `SuppOk p V n`: every basis function of the refined curve has non-empty
+    support inside the domain (`V_{max i p} < V_{i+p+1}` for `i < n`). -/
+theorem insertion_order_irrelevant (p d : ℕ) (tol : K) (U : List K) (P : List (List K)) (X Y : List K)
+    (hwf : CurveWF p d U P) (hX : RefineOk p tol (U, P) X) (hY : RefineOk p tol (U, P) Y) (hperm : X.Perm Y)
+    (hsupp : SuppOk p (X.foldl (insertOne p tol) (U, P)).1 (P.length + X.length)) :
+    X.foldl (insertOne p tol) (U, P) = Y.foldl (insertOne p tol) (U, P) :=
+  Prod.ext (fold_kv_order_indep p d U P X Y tol hwf hX hY hperm)
+    (fold_cp_order_indep p d tol U P X Y hwf hX hY hperm hsupp)
+
+/-- **A5.4 as coded returns exactly what the specification-level model returns** – the fold of single
+    knot insertions over `X` in ascending order – knot vector AND control points; general form with the
+    support condition on the refined knot vector. -/
+theorem refineA54_eq_insert_fold_of_supp (p d : ℕ) (U : List K) (P : List (List K)) (X : List K) (tol : K)
+    (hwf : CurveWF p d U P) (hX : X ≠ []) (hsort : X.Pairwise (· ≤ ·))
+    (hdom : ∀ x ∈ X, fnOf U p ≤ x ∧ x < fnOf U P.length) (h0 : 0 ≤ tol) (hsep : SepBy tol (U ++ X))
+    (hcnt : ∀ x ∈ X, U.count x + X.count x ≤ p)
+    (hsupp : SuppOk p (X.foldl (insertOne p tol) (U, P)).1 (P.length + X.length)) :
+    refineA54 p U P X tol = X.foldl (insertOne p tol) (U, P) :=
+  refineA54_eq_fold_of_supp p d U P X tol hwf hX hsort hdom h0 hsep hcnt hsupp
+
+/-- The same for a knot vector clamped at the start (`U_0 = U_p`) in which no value occurs more than
+    `p + 1` times (then every basis function of the refined curve has support: `suppOk_of_clamped`). -/
+theorem refineA54_eq_insert_fold (p d : ℕ) (U : List K) (P : List (List K)) (X : List K) (tol : K)
+    (hwf : CurveWF p d U P) (hX : X ≠ []) (hsort : X.Pairwise (· ≤ ·))
+    (hdom : ∀ x ∈ X, fnOf U p ≤ x ∧ x < fnOf U P.length) (h0 : 0 ≤ tol) (hsep : SepBy tol (U ++ X))
+    (hcnt : ∀ x ∈ X, U.count x + X.count x ≤ p)
+    (hclamp : fnOf U 0 = fnOf U p) (hmult : ∀ y ∈ U, U.count y ≤ p + 1) :
+    refineA54 p U P X tol = X.foldl (insertOne p tol) (U, P) :=
+  refineA54_eq_fold p d U P X tol hwf hX hsort hdom h0 hsep hcnt hclamp hmult
+
+/-- **`helpers.knot_refinement` as coded = the specification-level model** (helper level, explicit
+    `knot_list` / `add_knot_list` inside the domain, any density): under the hypotheses of
+    `knotRefinementOf_preserves_curve` plus "clamped at the start, no knot more than `p + 1` times", the
+    literal transcription of the whole call returns exactly what `knotRefinementOf` returns (including the
+    "Cannot refine" case). -/
+theorem knotRefinementA54_is_model (p d : ℕ) (U : List K) (P : List (List K)) (kl : Option (List K))
+    (add : List K) (density : ℕ) (tol : K)
+    (hwf : CurveWF p d U P) (hend : ∀ i, P.length ≤ i → fnOf U i = fnOf U P.length)
+    (hclamp : fnOf U 0 = fnOf U p) (hmult : ∀ y ∈ U, U.count y ≤ p + 1)
+    (hkl : ∀ l, kl = some l → ∀ a ∈ l, fnOf U p ≤ a ∧ a ≤ fnOf U P.length)
+    (hadd : ∀ a ∈ add, fnOf U p ≤ a ∧ a ≤ fnOf U P.length)
+    (h0 : 0 ≤ tol) (hsep : SepBy tol (U ++ genKnots (baseList p U kl add) density)) :
+    knotRefinementA54 p U P kl add density tol = knotRefinementOf p U P kl add density tol :=
+  knotRefinementA54_eq_model p d U P kl add density tol hwf hend hclamp hmult hkl hadd h0 hsep
+
+/-- … and for the default call (`knot_list = U[p:-p]`): the model all other C05 theorems are about. -/
+theorem knotRefinementA54_is_model_default (p d : ℕ) (U : List K) (P : List (List K)) (density : ℕ) (tol : K)
+    (hwf : CurveWF p d U P) (hend : ∀ i, P.length ≤ i → fnOf U i = fnOf U P.length)
+    (hclamp : fnOf U 0 = fnOf U p) (hmult : ∀ y ∈ U, U.count y ≤ p + 1)
+    (h0 : 0 ≤ tol) (hsep : SepBy tol (U ++ refineKnots p U density)) :
+    knotRefinementA54 p U P none [] density tol = knotRefinement p U P density tol :=
+  knotRefinementA54_eq_model_default p d U P density tol hwf hend hclamp hmult h0 hsep
+
+/-! ### non-vacuity of the (F) hypotheses: the quadratic of (A) and the list `X` the code computes for it -/
+
+example : refineX 2 ([0,0,0,1/2,1,1,1] : List ℚ) 1 (1/10000000) = [1/4,1/4,1/2,3/4,3/4] := by decide +kernel
+
+example : ([1/4,1/4,1/2,3/4,3/4] : List ℚ).Pairwise (· ≤ ·) := by decide +kernel
+
+example : ∀ x ∈ ([1/4,1/4,1/2,3/4,3/4] : List ℚ), fnOf ([0,0,0,1/2,1,1,1] : List ℚ) 2 ≤ x ∧
+    x < fnOf ([0,0,0,1/2,1,1,1] : List ℚ) ([[0,0],[1,2],[2,0],[3,1]] : List (List ℚ)).length := by decide +kernel
+
+example : SepBy (1/10000000 : ℚ) (([0,0,0,1/2,1,1,1] : List ℚ) ++ [1/4,1/4,1/2,3/4,3/4]) := by
+  unfold SepBy; decide +kernel
+
+example : ∀ x ∈ ([1/4,1/4,1/2,3/4,3/4] : List ℚ),
+    ([0,0,0,1/2,1,1,1] : List ℚ).count x + ([1/4,1/4,1/2,3/4,3/4] : List ℚ).count x ≤ 2 := by decide +kernel
+
+example : fnOf ([0,0,0,1/2,1,1,1] : List ℚ) 0 = fnOf ([0,0,0,1/2,1,1,1] : List ℚ) 2 ∧
+    ∀ y ∈ ([0,0,0,1/2,1,1,1] : List ℚ), ([0,0,0,1/2,1,1,1] : List ℚ).count y ≤ 2 + 1 := by decide +kernel
+
+/-- A5.4 as coded on that input (the arrays the Python loops produce) -/
+example : refineA54 2 ([0,0,0,1/2,1,1,1] : List ℚ) [[0,0],[1,2],[2,0],[3,1]] [1/4,1/4,1/2,3/4,3/4] (1/10000000)
+    = ([0,0,0,1/4,1/4,1/2,1/2,3/4,3/4,1,1,1],
+       [[0,0],[1/2,1],[7/8,5/4],[5/4,3/2],[3/2,1],[7/4,1/2],[17/8,1/2],[5/2,1/2],[3,1]]) := by decide +kernel
+
+/-- all hypotheses of (F) hold together on that input: there A5.4 as coded IS the fold of insertions -/
+example : refineA54 2 ([0,0,0,1/2,1,1,1] : List ℚ) [[0,0],[1,2],[2,0],[3,1]] [1/4,1/4,1/2,3/4,3/4] (1/10000000)
+    = ([1/4,1/4,1/2,3/4,3/4] : List ℚ).foldl (insertOne 2 (1/10000000)) ([0,0,0,1/2,1,1,1], [[0,0],[1,2],[2,0],[3,1]]) :=
+  refineA54_eq_insert_fold 2 2 _ _ _ _
+    ⟨mono_of_pairwise _ (by decide +kernel), by simp, by simp, by decide +kernel,
+      by intro pt hpt; simp at hpt; rcases hpt with h | h | h | h <;> simp [h]⟩
+    (by simp) (by decide +kernel) (by decide +kernel) (by norm_num) (by unfold SepBy; decide +kernel)
+    (by decide +kernel) (by decide +kernel) (by decide +kernel)
 
 end C05
